@@ -227,7 +227,7 @@ def install(eng):
         serves=["C13", "C12"])
     LOGP = "self.working_dir.joinpath('.gwf', 'logs', name + '%s')"
     eng.contract(
-        "gwf.backends.local:Scheduler.try_handle_task", self_type=Sch, is_async=True,
+        "gwf.backends.local:Scheduler.try_handle_task", shards=4, self_type=Sch, is_async=True,
         params={"self": Sch, "tid": Tid, "name": T.STR, "script": T.STR, "working_dir": vc.Path,
                 "time_limit": T.Opt(T.REAL), "deps": T.ListV(Tid)},
         locals={"proc": OP}, ghost_locals=GLOC,
